@@ -32,6 +32,16 @@ T = {
  "C15-b": ("C15", "add_response_to_resources applies the subdomain filter to the answer section only", "a genuine peer's packet whose ADDITIONAL section holds records of foreign names, with an on_discovery channel; first run MISSED it, announcement kind 'instance+foreign' added", ["C15"]),
  "C16-b": ("C16", "ResourceRecord::into_owned rebuilds the record with new(), losing cache_flush", "into_owned of a record with the cache-flush bit set (== ignores the bit; projection and bytes differ)", ["C16"]),
  "C20-b": ("C20", "remove_resource_record drops the whole node when the domain holds exactly one record", "removing a record that is not in the store from a name holding exactly one other record", ["C20"]),
+ "C01-b": ("C01", "IPSECKEY::parse shares one 4-byte length check between the IPv4 and IPv6 gateway branches", "IPSECKEY with IPv6 gateway and RDLENGTH 7..18: slice panic", ["C01"]),
+ "C03-b": ("C03", "Name::parse charges every followed pointer against the 255-byte name limit", "a name at (or a few bytes below) the 255-byte maximum written with a compression pointer: compressed output no longer parses", ["C03"]),
+ "C06-b": ("C06", "Name::parse replaces the following-pointer flag by the test pointer_position == *position", "a pointer whose target label ends on the pointer's own first byte, so the walk comes back to first_pointer+1: wrong resume cursor; caught only by 2 random buffers at first, self-overlap families and denser short random buffers added", ["C06"]),
+ "C08-b": ("C08", "Header::get_flags masks the rcode only on the Reserved path", "building a packet with RCODE::BADVERS (16): bit 4 (CD) set on the wire", ["C08"]),
+ "C09-b": ("C09", "OPT::parse option loop uses < instead of <= and stops with exactly 4 bytes left", "an OPT whose last option has an empty value: option dropped, following records misparsed", ["C09"]),
+ "C12-b": ("C12", "CharacterString::internal_new rejects 255-byte strings and into_owned expects it to succeed", "into_owned of a parsed record holding a character-string of exactly 255 bytes", ["C12"]),
+ "C14-b": ("C14", "ExpirationInfo::new computes ttl * 8 / 10 in u32", "a response record with TTL >= 0x20000000 ingested by the discovery listener: overflow panic under the write lock", ["C14"]),
+ "C17-b": ("C17", "Name::new limits the length of the input text instead of the encoded name", "names right at the 255-byte limit, or short names padded with many dots", ["C17"]),
+ "C18-b": ("C18", "CLASS::try_from strips the top bit (moved there from the record parser)", "class codes 0x8001-0x8004, 0x80FE: accepted and aliased to IN/CS/CH/HS/NONE", ["C18"]),
+ "C19-b": ("C19", "long_attributes splits with closures comparing c as u8 (the pinned tree's original defect re-introduced)", "text containing U+013B / U+013D / U+043B ...", ["C19"]),
 }
 for name, (prop, change, needs, caught) in T.items():
     d = f"/verif/seeded/{name}"
